@@ -42,6 +42,9 @@ def invalid_by_construction():
         # a carriage return directly in front of a line end (the delimiter's own first byte once more): request line, a header line,
         # the empty line - each of these requests is complete and is no valid upgrade
         "cr-cr-lf-after-request-line": g.replace(b"HTTP/1.1\r\n", b"HTTP/1.1\r\r\n", 1), "cr-cr-lf-after-wrong-path": b"GET /nope HTTP/1.1\r\r\nHost: x\r\n\r\n",
+        # version values that only READ as thirteen
+        **{"version-%s" % n: g.replace(b"Version: 13", b"Version: " + v) for n, v in
+           (("013", b"013"), ("plus13", b"+13"), ("0013", b"0013"), ("13.0", b"13.0"), ("13x", b"13x"), ("1-3", b"1 3"), ("x13", b"x13"), ("0x0d", b"0x0d"), ("13e0", b"13e0"), ("vt13", b"\x0b13"))},
         "garbage-first-line-only": b"\x01\x02\x03 garbage\r\n",
         "cr-cr-lf-only-line": b"GET /api/jet/ HTTP/1.1\r\r\n", "cr-cr-lf-bare": b"\r\r\n", "cr-cr-lf-after-garbage": b"garbage\r\r\n",
         "cr-cr-lf-after-a-header": g.replace(b"Host: x\r\n", b"Host: x\r\r\n", 1) if b"Host: x\r\n" in g else g[:-2] + b"X-A: b\r\r\n\r\n",
